@@ -110,6 +110,26 @@ def simplex_props(rng, k, kind, grids=None):
         q = int(rng.choice([10, 10, 20]))
         a = rng.multinomial(q, np.ones(k + 1) / (k + 1))[:k]
         d = np.array([int(v) / float(q) for v in a])
+    elif kind == "face":
+        # hundredths that add up to one: nothing is left for the last parent (0.07 + 0.93 is exactly 1.0 in floating point while
+        # 1 - 0.07 - 0.93 is -1.1e-16)
+        a = rng.multinomial(100, np.ones(k) / k) if k > 1 else [100]
+        d = np.array([int(v) / 100.0 for v in a])
+    elif kind == "face-neg":
+        # the same, picked so that the left-to-right float sum is <= 1 while 1 - f1 - f2 - ... comes out below zero (0.8 + 0.2,
+        # 0.55 + 0.45, 0.05 + 0.05 + 0.9): a valid proportion vector whichever way the remainder is computed
+        d = None
+        for _ in range(400):
+            a = rng.multinomial(20, np.ones(k) / k) if k > 1 else [20]
+            c = [int(v) / 20.0 for v in a]
+            tot, rem = 0.0, 1.0
+            for v in c:
+                tot, rem = tot + v, rem - v
+            if tot <= 1 and rem < 0 and min(c) > 0:
+                d = np.array(c)
+                break
+        if d is None:
+            d = np.array([1.0] if k == 1 else [0.8, 0.2] + [0.0] * (k - 2))
     elif kind == "fifths":
         d = np.full(k, 0.2)
     elif kind == "zero":
@@ -170,9 +190,15 @@ def run_construct(spec, rec, PhiManip):
         xx = gen.make_grid(rng, L, kind=gk)
         grids = [xx] * nd
         phi = gen.random_density(rng, (L,) * nd)
-        pk = str(rng.choice(["interior", "vertex", "edge", "boundary", "small", "decimal", "decimal"]))
+        pk = str(rng.choice(["interior", "vertex", "edge", "boundary", "small", "decimal", "decimal", "face", "face"]))
         if ci < 3:
             nd, pk = ci + 2, "fifths"            # (0.2,), (0.2, 0.2), (0.2, 0.2, 0.2): the plainest values a user would type
+            L = min(L, LCAP[nd])
+            xx = gen.make_grid(rng, L, kind=gk)
+            grids = [xx] * nd
+            phi = gen.random_density(rng, (L,) * nd)
+        if 3 <= ci < 9:
+            nd, pk = 3 + (ci % 2), "face-neg"
             L = min(L, LCAP[nd])
             xx = gen.make_grid(rng, L, kind=gk)
             grids = [xx] * nd
@@ -260,7 +286,7 @@ def run_pulse(spec, rec, PhiManip):
         rec.check("pulse-exists", False, site=site)
         return
     k = len(srcs)
-    kinds = ["fifths", "interior", "decimal", "vertex", "edge", "boundary", "small", "decimal", "interior", "gridpoint"]
+    kinds = ["fifths", "face-neg", "interior", "decimal", "vertex", "edge", "boundary", "small", "decimal", "interior", "gridpoint", "face", "face-neg", "face-neg"]
     for ci in range(spec["n"]):
         rng = rng_for(spec["seed"], "C06pulse", name, ci)
         L = int(rng.integers(5, LCAP[nd] + 1))
